@@ -91,3 +91,6 @@ package signature
 //@   pure
 //@ interface func (Signer).Sign(s, payload)
 //@   logged
+
+//@ func RegisterEnvelopeType(mediaType, newFunc, parseFunc)
+//@   ensures [ok] (newFunc != nil && parseFunc != nil) <==> result == nil
